@@ -2,6 +2,7 @@ package props
 
 import (
 	"fmt"
+	"math/bits"
 	"sort"
 	"strings"
 
@@ -23,17 +24,17 @@ type c19 struct{ base }
 func init() {
 	lib.Register(&c18{base{
 		id: "C18", level: "exploration",
-		technique: "runtime reference-model monitor: valid object data is validated by a real validator (recycling off and on), post.ApplyDefaults is applied to the real result, and the data afterwards is compared with what the independent draft-4 model extended with 'applicable schemata per member' prescribes: every absent member with an applicable default holds one of those defaults, present members are untouched (snapshot), nothing else appears",
-		rule: "object schemas with defaults at depth <=4 under properties, allOf, anyOf, oneOf, inside array items and tuple items, with local $ref; instances derived from the schema with random subsets of members present, kept when both the model and the library call them valid; distinct = FNV-64 of schema+instance; non-trivial = at least one absent member has an applicable default (something must be filled in)",
+		technique:   "runtime reference-model monitor: valid object data is validated by a real validator (recycling off and on), post.ApplyDefaults is applied to the real result, and the data afterwards is compared with what the independent draft-4 model extended with 'applicable schemata per member' prescribes: every absent member with an applicable default holds one of those defaults, present members are untouched (snapshot), nothing else appears",
+		rule:        "object schemas with defaults at depth <=4 under properties, allOf, anyOf, oneOf, inside array items and tuple items, with local $ref; instances derived from the schema with random subsets of members present, kept when both the model and the library call them valid; distinct = FNV-64 of schema+instance; non-trivial = at least one absent member has an applicable default (something must be filled in)",
 		assumptions: []string{"validity and the selection of anyOf/oneOf alternatives follow the library's documented Swagger rule that a required member whose property schema declares a default counts as present (the data is 'valid object data' by the library's own verdict)", "a default declared by a definition which the property schema merely references ($ref) may be filled in but is not demanded (the statement lists properties / allOf / anyOf / oneOf; the library fills such a default only when the enclosing schema was itself reached through a reference)", "dependencies are not part of the claim and not generated", "defaults of JSON null are not defaults for the library (s.Default != nil) and are not generated", "the draft-4 model and its applicable-schemata walk are trusted; sampled"},
-		quick: 150000, thorough: 4000000,
+		quick:       150000, thorough: 4000000,
 	}})
 	lib.Register(&c19{base{
 		id: "C19", level: "exploration",
-		technique: "runtime reference-model monitor: valid data is validated by a real validator, post.Prune is applied to the real result and the remaining data is compared with the data pruned by the independent model (a member survives iff an applicable schema describes it: declared property, matching pattern property, schema-valued additionalProperties; through allOf and the selected anyOf/oneOf alternative; recursively); survivors must be unchanged; without anyOf/oneOf a second validate+prune must remove nothing",
-		rule: "schemas built from properties, patternProperties, additionalProperties (absent / true / schema), items, tuples, allOf / anyOf / oneOf and local $ref; instances with described and undescribed members at every depth, kept when model and library call them valid; distinct = FNV-64 of schema+instance; non-trivial = the model prunes at least one member and keeps at least one",
+		technique:   "runtime reference-model monitor: valid data is validated by a real validator, post.Prune is applied to the real result and the remaining data is compared with the data pruned by the independent model (a member survives iff an applicable schema describes it: declared property, matching pattern property, schema-valued additionalProperties; through allOf and the selected anyOf/oneOf alternative; recursively); survivors must be unchanged; without anyOf/oneOf a second validate+prune must remove nothing",
+		rule:        "schemas built from properties, patternProperties, additionalProperties (absent / true / schema), items, tuples, allOf / anyOf / oneOf and local $ref; instances with described and undescribed members at every depth, kept when model and library call them valid; distinct = FNV-64 of schema+instance; non-trivial = the model prunes at least one member and keeps at least one",
 		assumptions: []string{"additionalProperties:false schemas make undescribed members invalid, so pruning is exercised by absent / true / schema-valued additionalProperties", "the draft-4 model and its applicable-schemata walk are trusted; sampled"},
-		quick: 150000, thorough: 4000000,
+		quick:       150000, thorough: 4000000,
 	}})
 }
 
@@ -290,6 +291,12 @@ func (p *c18) Run(w *lib.Worker, idx int, r *lib.Rand) lib.Case {
 			}
 		}
 		if fail != "" {
+			if keys := explainDefaults(schema, inst, after); keys != nil {
+				c.Known = keys
+				c.KnownWhat = fmt.Sprintf("ApplyDefaults: %s (the library selected another anyOf/oneOf alternative than draft 4); schema=%s instance=%s after=%s", fail, st, it, model.Canon(after))
+				c.Sample = sample
+				return c
+			}
 			c.Viol = &lib.Violation{What: fmt.Sprintf("ApplyDefaults (recycle=%v): %s; schema=%s instance=%s after=%s", recycle, fail, st, it, model.Canon(after)), Detail: sample}
 			return c
 		}
@@ -370,6 +377,14 @@ func (p *c19) Run(w *lib.Worker, idx int, r *lib.Rand) lib.Case {
 		after, _ := model.Parse(gen.JSON(data))
 		sample["after_Prune"] = model.Canon(after)
 		if !model.Equal(after, want) {
+			if keys := explainPrune(schema, inst, after); keys != nil {
+				// the library selected another anyOf/oneOf alternative than draft 4 does because of a recorded C01 deviation:
+				// with exactly that deviation switched on, the model prunes to the very same document
+				c.Known = keys
+				c.KnownWhat = fmt.Sprintf("Prune left %s, draft-4 selection gives %s; schema=%s instance=%s", model.Canon(after), model.Canon(want), st, it)
+				c.Sample = sample
+				return c
+			}
 			c.Viol = &lib.Violation{What: fmt.Sprintf("Prune (recycle=%v) left %s, the model says %s; schema=%s instance=%s", recycle, model.Canon(after), model.Canon(want), st, it), Detail: sample}
 			return c
 		}
@@ -404,4 +419,161 @@ func (p *c19) Finish(a *lib.Aggregate) (broken []string) {
 		broken = append(broken, "idempotence never checked")
 	}
 	return
+}
+
+// emuMasksBySize lists the non-empty subsets of the recorded C01 deviations, smallest first.
+func emuMasksBySize() []int {
+	n := len(model.EmuNames)
+	masks := make([]int, 0, 1<<n)
+	for m := 1; m < 1<<n; m++ {
+		masks = append(masks, m)
+	}
+	sort.Slice(masks, func(i, j int) bool {
+		if a, b := bits.OnesCount(uint(masks[i])), bits.OnesCount(uint(masks[j])); a != b {
+			return a < b
+		}
+		return masks[i] < masks[j]
+	})
+	return masks
+}
+
+func emuKeys(m int) []string {
+	var keys []string
+	for i, name := range model.EmuNames {
+		if m&(1<<i) != 0 {
+			keys = append(keys, name)
+		}
+	}
+	return keys
+}
+
+// explainPrune: the smallest set of recorded deviations under which the model's pruning gives exactly `after`.
+func explainPrune(schema, inst, after any) []string {
+	for _, m := range emuMasksBySize() {
+		described := map[string]bool{}
+		mc := &model.Ctx{Root: schema, Formats: strfmt.Default, RequiredSatisfiedByDefault: true, Emu: model.EmuFromMask(m)}
+		mc.Applicable(schema, inst, "", func(objPath, member string, present bool, s map[string]any) {
+			if present {
+				described[objPath+"\x00"+member] = true
+			}
+		})
+		var prune func(v any, path string) any
+		prune = func(v any, path string) any {
+			switch x := v.(type) {
+			case map[string]any:
+				out := map[string]any{}
+				for k, e := range x {
+					if described[path+"\x00"+k] {
+						out[k] = prune(e, path+"/"+k)
+					}
+				}
+				return out
+			case []any:
+				out := make([]any, len(x))
+				for i, e := range x {
+					out[i] = prune(e, fmt.Sprintf("%s/%d", path, i))
+				}
+				return out
+			}
+			return v
+		}
+		if model.Equal(prune(inst, ""), after) {
+			return emuKeys(m)
+		}
+	}
+	return nil
+}
+
+// explainDefaults: the smallest set of recorded deviations under which the document after ApplyDefaults is exactly what
+// the model demands and allows: present members unchanged, every member the model demands filled with one of its
+// defaults, no other member.
+func explainDefaults(schema, inst, after any) []string {
+	type mk struct{ obj, member string }
+	for _, m := range emuMasksBySize() {
+		defaults, optional := map[mk][]any{}, map[mk][]any{}
+		mc := &model.Ctx{Root: schema, Formats: strfmt.Default, RequiredSatisfiedByDefault: true, Emu: model.EmuFromMask(m)}
+		mc.Applicable(schema, inst, "", func(objPath, member string, present bool, s map[string]any) {
+			if present || s == nil {
+				return
+			}
+			if t, viaRef := s["x-verif-via-ref"].(map[string]any); viaRef {
+				if d, has := t["default"]; has && d != nil {
+					optional[mk{objPath, member}] = append(optional[mk{objPath, member}], d)
+				}
+				return
+			}
+			if d, has := s["default"]; has && d != nil {
+				defaults[mk{objPath, member}] = append(defaults[mk{objPath, member}], d)
+			}
+		})
+		ok := true
+		var walk func(before, now any, path string)
+		walk = func(before, now any, path string) {
+			if !ok {
+				return
+			}
+			switch b := before.(type) {
+			case map[string]any:
+				n, isObj := now.(map[string]any)
+				if !isObj {
+					ok = false
+					return
+				}
+				for k, bv := range b {
+					nv, still := n[k]
+					if !still {
+						ok = false
+						return
+					}
+					walk(bv, nv, path+"/"+k)
+				}
+				for k := range n {
+					if _, was := b[k]; was {
+						continue
+					}
+					match := false
+					for _, d := range append(append([]any{}, defaults[mk{path, k}]...), optional[mk{path, k}]...) {
+						if model.Equal(d, n[k]) {
+							match = true
+						}
+					}
+					if !match {
+						ok = false
+						return
+					}
+				}
+			case []any:
+				n, isArr := now.([]any)
+				if !isArr || len(n) != len(b) {
+					ok = false
+					return
+				}
+				for i := range b {
+					walk(b[i], n[i], fmt.Sprintf("%s/%d", path, i))
+				}
+			default:
+				if !model.Equal(before, now) {
+					ok = false
+				}
+			}
+		}
+		walk(inst, after, "")
+		if ok {
+			for k := range defaults {
+				obj, _ := at(after, k.obj).(map[string]any)
+				if obj == nil {
+					ok = false
+					break
+				}
+				if _, filled := obj[k.member]; !filled {
+					ok = false
+					break
+				}
+			}
+		}
+		if ok {
+			return emuKeys(m)
+		}
+	}
+	return nil
 }
